@@ -16,6 +16,7 @@ LEVEL_NOTE = ("Bounds: n = F+1 quick (one class per pattern shape + 6 enzyme geo
               "patterns, all geometries); letters over ACGT; plus generic classes at n = F+8 (room for a third recognition site inside the target: the illegal-site screen must not depend on the origin either). The assembly clause rests on C03/C19 (the walk reads overhangs and "
               "fragments only) plus C01's end-to-end rotated runs; the 'every registry plasmid' clause (2-10 kb concrete "
               "records) is outside what a solver query can cover and is not claimed. Trusted: z3, CPython, symx models.")
+LEVEL_NOTE_EXTRA = "Also: the kit-level entry point characterize() rotated like the constructors; generic classes over 3'-overhang cutters (BsrDI, BciVI, BseRI)."
 TECHNIQUE = "bounded symbolic execution of the real Python source (symx) with z3; metamorphic relation r vs r>>k with residue case split; replay on the real stack"
 EXPLANATION = ("two symbolic executions of the typing code on one path (r and r >> k); uniqueness of the structure occurrence is "
                "an explicit assumption built from a declarative match predicate; z3 decides equality of every reported value")
